@@ -1,5 +1,7 @@
 import PgBifrost.Proofs.S3
 import PgBifrost.Gen.S3Src
+import PgBifrost.Gen.S3WorkerSrc
+import PgBifrost.Gen.WorkerLoops
 /-!
 # C12 — S3: one complete, correctly keyed object per written batch (property theorems)
 
@@ -310,6 +312,41 @@ theorem s3_key_as_in_source :
   refine ⟨?_, rfl, rfl, rfl, rfl, rfl, rfl⟩
   funext parts
   simp only [PgBifrost.Gen.S3Src.keyJoin, keyFn, keyJoinFixed, gen_go_eq]
+
+/-- The S3 worker as written: the buffer bookkeeping at the top of `transportWithRetry` (count first, compare with
+`>`, fresh buffer and counter 0 when above the reuse limit, `Reset` otherwise), what each pass of the write loop
+appends (the record's JSON, then a newline), the reader made only after `gz.Close()`, a cancellation seen before
+the upload only recorded, and the rewind `Seek(0, 0)` of the body after a failed attempt are the model's; the
+loop body of `StartTransporting`, translated statement by statement, is the generic worker iteration, and the
+model's `stepWith` reports a batch exactly when that iteration does. -/
+theorem s3_worker_as_in_source :
+    PgBifrost.Gen.S3WorkerSrc.prepare = prepare ∧
+    (∀ plain recs, writeAll plain recs = recs.foldl PgBifrost.Gen.S3WorkerSrc.writeRec plain) ∧
+    PgBifrost.Gen.S3WorkerSrc.seekAfterFailure = some (0, 0) ∧
+    PgBifrost.Gen.S3WorkerSrc.readerAfterClose = true ∧
+    PgBifrost.Gen.S3WorkerSrc.cancelOnlyRecorded = true ∧
+    PgBifrost.Gen.WorkerLoops.s3Iteration = PgBifrost.WorkerLoop.iteration ∧
+    (∀ kj env cfg (w : Worker) t cancel zlen script recs, w.alive = true →
+      (stepWith kj env cfg w t cancel zlen script recs).2.reported =
+        (PgBifrost.Gen.WorkerLoops.s3Iteration
+          ⟨cancel = .early, recs = [], !(retry zlen cfg.budget 0 0 script).2, cancel = .mid⟩).reported) := by
+  have hl : PgBifrost.Gen.WorkerLoops.s3Iteration = PgBifrost.WorkerLoop.iteration := by
+    funext i; obtain ⟨a, b, c, d⟩ := i; cases a <;> cases b <;> cases c <;> cases d <;> rfl
+  refine ⟨?_, fun _ _ => rfl, rfl, rfl, rfl, hl, ?_⟩
+  · funext env maxReuse b
+    simp only [PgBifrost.Gen.S3WorkerSrc.prepare, prepare, Id.run]
+    by_cases h : b.used + 1 > maxReuse <;> simp [h, pure]
+  · intro kj env cfg w t cancel zlen script recs ha
+    rw [hl]
+    unfold stepWith
+    simp only [ha, Bool.not_true, Bool.false_eq_true, if_false]
+    by_cases he : cancel = .early
+    · simp [he, PgBifrost.WorkerLoop.iteration]
+    · cases recs with
+      | nil => simp [he, PgBifrost.WorkerLoop.iteration]
+      | cons r0 rest =>
+        cases hr : (retry zlen cfg.budget 0 0 script).2 <;> by_cases hm : cancel = .mid <;>
+          simp [he, hm, PgBifrost.WorkerLoop.iteration]
 
 /-! ## non-vacuity -/
 
